@@ -23,52 +23,83 @@ def _has(path: str) -> bool:
 # mTSP
 # =================================================================================================
 class MtspEnvs:
-    """`MTSPEnv._reset` sizes the mask from `generator.num_loc`, so one real env per instance size is
-    constructed (exactly what a user does through `generator_params`); reset picks it by the data."""
+    """`MTSPEnv._reset` sizes the mask from `generator.num_loc`, so one real env per (instance size, cost_type) is
+    constructed (exactly what a user does through `generator_params`); reset picks it by the data.  The env that
+    steps alternates between the two cost types (`_step` must not depend on it); rewards are asked per cost type."""
 
-    def __init__(self, cost_type: str = "minmax"):
-        self.cost_type = cost_type
+    COSTS = ["minmax", "sum"]
+
+    def __init__(self, cost_type=None):
+        self.cost_type = cost_type  # None: alternate
         self._envs = {}
         self.cur = None
+        self._k = 0
 
-    def env_for(self, num_loc: int):
-        if num_loc not in self._envs:
+    def env_for(self, num_loc: int, cost_type: str, agents=(5, 5)):
+        key = (num_loc, cost_type, agents)
+        if key not in self._envs:
             from rl4co.envs.routing.mtsp.env import MTSPEnv
 
-            self._envs[num_loc] = MTSPEnv(generator_params=dict(num_loc=num_loc), cost_type=self.cost_type,
-                                          check_solution=False)
-        return self._envs[num_loc]
+            self._envs[key] = MTSPEnv(generator_params=dict(num_loc=num_loc, min_num_agents=agents[0], max_num_agents=agents[1]),
+                                      cost_type=cost_type, check_solution=False)
+        return self._envs[key]
 
     def reset(self, td):
-        self.cur = self.env_for(td["locs"].shape[-2])
+        ct = self.cost_type or self.COSTS[self._k % 2]
+        self._k += 1
+        self.num_loc = td["locs"].shape[-2]
+        self.cur = self.env_for(self.num_loc, ct)
         return self.cur.reset(td)
 
     def step(self, td):
         return self.cur.step(td)
 
+    def reward(self, td, actions, cost_type):
+        return self.env_for(self.num_loc, cost_type)._get_reward(td, actions)
+
     def _get_reward(self, td, actions):
-        return self.cur._get_reward(td, actions)
+        return self.reward(td, actions, "minmax")
 
 
 class MtspAdapter(envcorr.Adapter):
     name = "mtsp"
     has_checker = False
 
+    def __init__(self):
+        self._gen_envs = MtspEnvs()
+        self.contract_violations = []
+
     def make_env(self, **kw):
-        return MtspEnvs(kw.get("cost_type", "minmax"))
+        return MtspEnvs(kw.get("cost_type"))
 
     def n_of(self, inst):
         return inst["n"]
 
     def sizes(self, tier):
-        return [1, 2, 3, 5, 8] if tier == "quick" else [1, 2, 3, 5, 8, 13, 20]
+        # one third of the quick episodes are larger instances
+        return [1, 2, 3, 5, 8, 12, 16, 20] if tier == "quick" else [1, 2, 3, 5, 8, 13, 20, 30, 50]
+
+    def kinds(self):
+        return ["random", "boundary", "generator"]
 
     def gen_instance(self, rng, n, kind="random"):
         if kind == "boundary":
             m = rng.choice([1, 1, 2, n, n + 1, n + 3])  # single agent, as many agents as customers, spare agents
+        elif kind == "generator":
+            # number of agents drawn by the REAL generator from a non-degenerate range (its documented contract is checked)
+            lo = rng.randint(1, max(1, n))
+            hi = lo + rng.randint(0, 3)
+            gen = self._gen_envs.env_for(n + 1, "minmax", (lo, hi)).generator
+            torch.manual_seed(rng.randrange(2**31))
+            out = gen(batch_size=[3])
+            ms = out["num_agents"].tolist()
+            if tuple(out["locs"].shape) != (3, n + 1, 2) or any(not (lo <= v <= hi) for v in ms):
+                self.contract_violations.append({"generator_params": {"num_loc": n + 1, "min_num_agents": lo, "max_num_agents": hi},
+                                                 "locs_shape": list(out["locs"].shape), "num_agents": ms})
+            m = min(max(rng.choice(ms), 1), n + 3)
         else:
             m = rng.randint(1, n + 1)
-        pts = geom.gen_points(rng, n + 1)
+        pts = mc.gen_points_box(rng, n + 1)
         return {"kind": kind, "n": n, "m": max(1, m), "pts": pts}
 
     def to_td(self, insts):
@@ -85,6 +116,12 @@ class MtspAdapter(envcorr.Adapter):
 
     def step_bound(self, inst):
         return inst["n"] + inst["m"] - 1
+
+    def real_reward_ticks(self, env, td, actions):
+        return [rl.ticks(v) for v in env.reward(td, actions, "minmax").flatten().tolist()]
+
+    def extra_rewards(self, env, td, actions):
+        return {"rsum": [rl.ticks(v) for v in env.reward(td, actions, "sum").flatten().tolist()]}
 
     def enumerate_solutions(self, inst):
         """all canonical solutions: a permutation of the customers cut into consecutive tours (any number of
@@ -107,6 +144,18 @@ class MtspAdapter(envcorr.Adapter):
 MTSP = MtspAdapter()
 
 
+def mtsp_with_generator_contract(run):
+    """instances of kind 'generator' take `num_agents` from the real MTSPGenerator; a draw outside the documented range
+    [min_num_agents, max_num_agents] (or a wrong `locs` shape) is reported with the generator parameters as witness"""
+    def wrapped(ctx):
+        MTSP.contract_violations.clear()
+        run(ctx)
+        for w in MTSP.contract_violations[:3]:
+            ctx.violation("mtsp:generator:instance-outside-documented-range",
+                          "MTSPGenerator returned an instance outside its documented contract", w)
+    return wrapped
+
+
 def _mtsp_obs(td, r):
     return (rl.ticks(td["max_subtour_length"][r]), rl.ticks(td["current_length"][r]), int(td["agent_idx"][r]))
 
@@ -115,8 +164,7 @@ def mtsp_check_reward(ctx, episodes_quick: int = 40, episodes_thorough: int = 25
     """C03 for mTSP, both cost types.  The bookkeeping (`max_subtour_length`, `current_length`, `agent_idx`) is
     compared with the model after every step, the final reward with the model and with the Spec objective."""
     ad = MTSP
-    env = ad.make_env(cost_type="minmax")
-    env_sum = ad.make_env(cost_type="sum")
+    env = ad.make_env()
     total = ctx.budget(episodes_quick, episodes_thorough)
     done_eps = 0
     while done_eps < total:
@@ -132,12 +180,11 @@ def mtsp_check_reward(ctx, episodes_quick: int = 40, episodes_thorough: int = 25
             ctx.count("mtsp.dead-end-skipped")
             continue
         acts = rl.actions_tensor(ep)
-        real = [rl.ticks(v) for v in env._get_reward(ep.td, acts).flatten().tolist()]
-        env_sum.reset(td0.clone())
+        real = ad.real_reward_ticks(env, ep.td, acts)
         try:
-            real_sum = [rl.ticks(v) for v in env_sum._get_reward(ep.td, acts).flatten().tolist()]
+            real_sum = ad.extra_rewards(env, ep.td, acts)["rsum"]
         except RuntimeError:
-            real_sum = None  # the call raises (shape error in expand_as)
+            real_sum = None  # the call raises
         lines = [ad.line("episode", insts[r], ep.actions[r]) for r in range(B)]
         replies = ctx.driver.ask_many(lines)
         for r in range(B):
@@ -184,6 +231,48 @@ def mtsp_check_reward(ctx, episodes_quick: int = 40, episodes_thorough: int = 25
                         "spec_obj": f.get("obj"), "sum_reward": None if real_sum is None else real_sum[r]})
 
 
+class MtspCompleteness:
+    """C05 plug-in: tiny instances enumerated exhaustively and driven next to companion rows with other `num_agents`."""
+    name = "mtsp"
+    obj_fields = ["obj", "objsum"]
+
+    def __init__(self):
+        self.envs = MtspEnvs()
+
+    def instances(self, ctx, g):
+        nmax = 4 if ctx.tier == "quick" else 5
+        n = [1, 2, 3, 4][g % 4] if g < 4 else ctx.rng.randint(2, nmax)
+        inst = MTSP.gen_instance(ctx.rng, n, ctx.rng.choice(["random", "boundary", "boundary"]))
+        # the companions have fewer / more agents than the enumerated instance (row 0 and the last row of every batch)
+        lo = dict(MTSP.gen_instance(ctx.rng, n, "random"), m=1)
+        hi = dict(MTSP.gen_instance(ctx.rng, n, "random"), m=inst["m"] + n + 1)
+        comps = [lo, hi] if ctx.rng.random() < 0.5 else [hi, lo]
+        ctx.count(f"mtsp.n={n}")
+        ctx.count(f"mtsp.m-vs-n={'<' if inst['m'] < n else ('=' if inst['m'] == n else '>')}")
+        return inst, comps
+
+    def candidates(self, inst):
+        return MTSP.enumerate_solutions(inst)
+
+    def env_for(self, inst):
+        return self.envs
+
+    def to_td(self, insts):
+        return MTSP.to_td(insts)
+
+    def after_reset(self, td, r):
+        return {}
+
+    def line(self, inst, actions):
+        return MTSP.line("episode", inst, actions)
+
+    def hide_key(self, inst, cand, t, mask, f):
+        return "mtsp:mask-hides-feasible"
+
+    def known_reachable(self, inst, cand, f):
+        return False
+
+
 MTSP_NOTE = ("MTSPEnv modelled per instance over integer ticks (Rl4co/Env/Mtsp.lean); coordinates→distance arithmetic "
              "and float32 rounding are outside the model (integral point sets make them exact); `first_node` is "
              "written by the code but never read by mask/done/reward and is not compared")
@@ -194,7 +283,7 @@ def _thms(path, thms):
     return thms if _has(path) else []
 
 
-register(Unit("C01", "mtsp", mc.chunked(lambda ctx: envcorr.check_feasibility(ctx, MTSP, episodes_quick=40, episodes_thorough=2500)),
+register(Unit("C01", "mtsp", mc.chunked(mtsp_with_generator_contract(lambda ctx: envcorr.check_feasibility(ctx, MTSP, episodes_quick=40, episodes_thorough=2500))),
               drivers=["drv_mtsp"],
               lean_modules=["Rl4co.Props.C01.Mtsp"] if _has("Rl4co/Props/C01/Mtsp.lean") else ["Rl4co.Spec.Mtsp"],
               theorems=_thms("Rl4co/Props/C01/Mtsp.lean", [
@@ -229,7 +318,7 @@ register(Unit("C04", "mtsp", mc.chunked(lambda ctx: mc.check_batch_independence(
                           "the batched step with its row-0 first-step flag equals the row-wise step on lock-step batches")]),
               assumptions=[MTSP_NOTE, "the batched code is compared row-wise against the per-instance model"]
               + ([] if _has("Rl4co/Props/C04/Mtsp.lean") else [NO_THM])))
-register(Unit("C05", "mtsp", mc.chunked(lambda ctx: envcorr.check_completeness(ctx, MTSP, insts_quick=10, nmax_quick=4)),
+register(Unit("C05", "mtsp", mc.chunked(lambda ctx: mc.check_completeness_batched(ctx, MtspCompleteness(), 10, 80)),
               drivers=["drv_mtsp"],
               lean_modules=["Rl4co.Props.C05.Mtsp"] if _has("Rl4co/Props/C05/Mtsp.lean") else ["Rl4co.Spec.Mtsp"],
               theorems=_thms("Rl4co/Props/C05/Mtsp.lean", [
@@ -246,21 +335,24 @@ W_DEN = 4
 
 
 class MdcpdpEnvs:
-    """One real `MDCPDPEnv` per (num_loc, num_depot, problem_mode, dist_mode): `_reset` sizes its tensors from the
-    generator parameters, exactly as a user passes them through `generator_params`."""
+    """One real `MDCPDPEnv` per (num_loc, num_depot, problem_mode, dist_mode, start_mode): `_reset` sizes its tensors
+    from the generator parameters, exactly as a user passes them through `generator_params`."""
 
     def __init__(self):
         self._envs = {}
 
-    def get(self, n, K, open_mode=False, dist="L2", reward_mode="minsum"):
-        key = (n, K, open_mode, dist)
+    def get(self, n, K, open_mode=False, dist="L2", start="order", reward_mode="minsum"):
+        key = (n, K, open_mode, dist, start)
         if key not in self._envs:
             from rl4co.envs.routing.mdcpdp.env import MDCPDPEnv
 
             self._envs[key] = MDCPDPEnv(generator_params=dict(num_loc=n, num_depot=K), dist_mode=dist,
                                         problem_mode="open" if open_mode else "close", reward_mode=reward_mode,
-                                        start_mode="order", check_solution=False)
+                                        start_mode=start, check_solution=False)
         return self._envs[key]
+
+    def of(self, inst):
+        return self.get(inst["n"], inst["K"], inst["open"], inst["dist"], inst.get("start_mode", "order"))
 
 
 def md_dist_ticks(pts, dist):
@@ -269,24 +361,55 @@ def md_dist_ticks(pts, dist):
     return geom.D_ticks(pts)
 
 
+class MdCfg:
+    """Configurations of one run: every combination of problem_mode × dist_mode × start_mode comes up in turn (all 8 within
+    the first 8 batches of every routine, in an order drawn from the run's PRNG); sizes include larger instances."""
+
+    def __init__(self, ctx):
+        self.ctx = ctx
+        self.combos = [(o, d, st) for o in (False, True) for d in ("L2", "L1") for st in ("order", "random")]
+        ctx.rng.shuffle(self.combos)
+        self.k = 0
+
+    def next(self, n=None, K=None):
+        rng, tier = self.ctx.rng, self.ctx.tier
+        o, d, st = self.combos[self.k % len(self.combos)]
+        self.k += 1
+        n = n if n is not None else rng.choice([2, 4, 6, 6, 8, 12] if tier == "quick" else [2, 4, 6, 8, 12, 16, 20])
+        K = K if K is not None else rng.choice([1, 2, 2, 3, 4] if tier == "quick" else [1, 2, 3, 4, 5])
+        cfg = {"n": n, "K": K, "open": o, "dist": d, "start_mode": st}
+        self.ctx.count(f"mdcpdp.cfg.{'open' if o else 'close'}.{d}.start={st}")
+        return cfg
+
+
 def md_cfg(rng, tier, n=None, K=None):
     n = n if n is not None else rng.choice([2, 4, 6] if tier == "quick" else [2, 4, 6, 8, 12])
     K = K if K is not None else rng.choice([1, 2, 2, 3] if tier == "quick" else [1, 2, 3, 4])
-    return {"n": n, "K": K, "open": rng.random() < 0.5, "dist": rng.choice(["L2", "L2", "L1"])}
+    return {"n": n, "K": K, "open": rng.random() < 0.5, "dist": rng.choice(["L2", "L2", "L1"]), "start_mode": "order"}
+
+
+def md_clustered_points(rng, n, K):
+    """collinear exact points: depots and pickups close together at one end, deliveries far away at the other end —
+    carrying several orders at once then pays, so the capacity constraint decides the optimum"""
+    y = rng.randrange(0, geom.GRID + 1)
+    deps = [(rng.randrange(0, 40), y) for _ in range(K)]
+    picks = [(rng.randrange(50, 90), y) for _ in range(n // 2)]
+    dels = [(rng.randrange(900, 1000), y) for _ in range(n // 2)]
+    return deps + picks + dels
 
 
 def md_instance(rng, cfg, kind="random"):
     n, K = cfg["n"], cfg["K"]
     h = n // 2
-    if kind == "boundary":
+    if kind in ("boundary", "clustered"):
         caps = rng.choice([[1] * K, [h] * K, [1] + [h] * (K - 1), [h] + [1] * (K - 1)])
     elif kind == "uniform":
         caps = [rng.randint(1, max(1, h))] * K
     else:
         caps = [rng.randint(1, max(1, h)) for _ in range(K)]
-    pts = geom.gen_points(rng, n + K)
+    pts = md_clustered_points(rng, n, K) if kind == "clustered" else mc.gen_points_box(rng, n + K)
     return {"kind": kind, "n": n, "K": K, "caps": caps, "pts": pts, "open": cfg["open"], "dist": cfg["dist"],
-            "w4": rng.choice([0, 1, 2, 4, 4])}
+            "start_mode": cfg.get("start_mode", "order"), "start": 0, "w4": rng.choice([0, 1, 2, 3, 4, 4])}
 
 
 def md_to_td(insts, cap_tensor=None):
@@ -305,7 +428,8 @@ def md_header(inst, mode, envK=None, specK=None):
     K = inst["K"] if envK is None else envK
     sK = inst["K"] if specK is None else specK
     split0 = inst["n"] // 2 + inst["K"]
-    return f"{N} {K} {split0} {inst['K']} {int(inst['open'])} {MODES.index(mode)} {inst['w4']} {W_DEN} {sK} {inst['n'] // 2}"
+    return (f"{N} {K} {split0} {inst['K']} {int(inst['open'])} {MODES.index(mode)} {inst['w4']} {W_DEN} {sK} {inst['n'] // 2} "
+            f"{inst.get('start', 0)}")
 
 
 def md_line(inst, actions, mode="minsum", env_caps=None, envK=None):
@@ -329,14 +453,22 @@ class _MdShim:
 MD = _MdShim()
 
 
-def md_run(ctx, envs, insts, pad=0, forced=None, cap_tensor=None, reward_mode="minsum"):
+def md_run(ctx, envs, insts, pad=0, forced=None, cap_tensor=None, reward_mode="minsum", pin_start=None):
+    """Drives the real env.  Returns (env, episode, rows): `rows[r]` is `insts[r]` with `start` = the initial
+    `current_depot` of that row (drawn by `_reset` when start_mode='random').  `pin_start` re-uses given draws."""
     c = insts[0]
-    env = envs.get(c["n"], c["K"], c["open"], c["dist"])
+    env = envs.of(c)
     env.reward_mode = reward_mode
+
+    def post_reset(td):
+        if pin_start is not None:
+            td["current_depot"][:] = torch.tensor(pin_start, dtype=torch.int64).reshape(-1, 1)
+
     td0 = md_to_td(insts, cap_tensor)
     ep = mc.run_episode_obs(env, td0, envcorr.uniform_chooser(ctx.rng), _md_obs, extra_pad=pad, forced=forced,
-                            max_steps=10 * (c["n"] + c["K"]) + 20)
-    return env, ep
+                            max_steps=10 * (c["n"] + c["K"]) + 20, post_reset=post_reset)
+    rows = [dict(inst, start=ep.obs[r][0][2]) for r, inst in enumerate(insts)]
+    return env, ep, rows
 
 
 def md_ask(ctx, insts, ep, mode="minsum", env_caps=None, envK=None):
@@ -356,57 +488,73 @@ def md_compare_state(ctx, inst, ep, r, f, what):
                           "real": real[k] if k >= 0 else None, "model": model[k] if k >= 0 else None})
 
 
-def md_feas_key(f):
-    """name the clause of the problem statement a real episode violates (Lean Spec verdicts)"""
+def md_feas_key(ctx, f, row, actions):
+    """name the clause of the problem statement a real episode violates (Lean Spec verdicts); a known key is used only
+    when switching off exactly that clause makes the Spec accept the episode"""
     if f["feas"] == "1":
         return None
     if f["vnohome"] == "0":
         return "mdcpdp:current-depot-stuck:vehicle-returns-to-depot-0"
     if f["vcap0"] == "0":
         return "mdcpdp:current-depot-stuck:capacity-of-depot-0-applied"
+    st = row.get("start", 0)
+    if st != 0 and actions and actions[0] == 0 and st in actions:
+        # start_mode='random' drew depot st != 0, yet the first action is forced to node 0 and `current_depot` stays st: the mask
+        # then offers node st as "the way home" while the vehicle of depot 0 is out.  Known syndrome = the FIRST clause the
+        # Spec sees violated is exactly that visit (everything before it is clean, judged with st's capacity, which is the
+        # one the env applies), and it is the clause "a vehicle starts while another one is out".
+        k = actions.index(st)
+        as_if = dict(row, caps=[row["caps"][st]] * row["K"])
+        g0 = parse_fields(ctx.driver.ask(md_line(as_if, list(actions[:k]), env_caps=row["caps"])))
+        g1 = parse_fields(ctx.driver.ask(md_line(as_if, list(actions[: k + 1]), env_caps=row["caps"])))
+        if g0.get("vnohome") in ("0", "8") and g1.get("vnohome") == "2":
+            return "mdcpdp:start-mode-random:first-action-forced-to-depot-0"
     return "mdcpdp:infeasible-episode"
 
 
 def md_check_feasibility(ctx, episodes_quick=40, episodes_thorough=2000):
     envs = MdcpdpEnvs()
+    cfgs = MdCfg(ctx)
     total = ctx.budget(episodes_quick, episodes_thorough)
     k = 0
     while k < total:
-        cfg = md_cfg(ctx.rng, ctx.tier)
-        B = ctx.rng.choice([1, 1, 2, 3])
+        cfg = cfgs.next()
+        B = ctx.rng.choice([1, 2, 3, 4])
         insts = [md_instance(ctx.rng, cfg, ctx.rng.choice(["random", "boundary", "uniform"])) for _ in range(B)]
-        env, ep = md_run(ctx, envs, insts)
+        env, ep, rows = md_run(ctx, envs, insts)
         k += B
         if ep.empty_mask_rows:
             r, t = ep.empty_mask_rows[0]
             ctx.violation("mdcpdp:dead-end", "all-False mask row while the batch is running",
-                          {"inst": insts[r], "actions": ep.actions[r], "step": t})
+                          {"inst": rows[r], "actions": ep.actions[r], "step": t})
             continue
-        lines, replies = md_ask(ctx, insts, ep)
+        lines, replies = md_ask(ctx, rows, ep)
         for r in range(B):
-            f = envcorr.compare_trace(ctx, MD, insts[r], ep.actions[r], ep.masks[r], ep.done[r], replies[r], "C01 stream")
+            f = envcorr.compare_trace(ctx, MD, rows[r], ep.actions[r], ep.masks[r], ep.done[r], replies[r], "C01 stream")
             if "feas" not in f:
                 continue
-            md_compare_state(ctx, insts[r], ep, r, f, "C01 stream")
-            ctx.case(("mdcpdp", repr(insts[r]), tuple(ep.actions[r])))
+            md_compare_state(ctx, rows[r], ep, r, f, "C01 stream")
+            ctx.case(("mdcpdp", repr(rows[r]), tuple(ep.actions[r])))
             ctx.count(f"mdcpdp.n={cfg['n']}.K={cfg['K']}")
             ctx.count(f"mdcpdp.kind={insts[r]['kind']}")
             ctx.count(f"mdcpdp.spec-verdict={f['why']}")
-            key = md_feas_key(f)
+            ctx.count(f"mdcpdp.B={B}.caps-{'equal' if len(set(map(tuple, (i['caps'] for i in insts)))) == 1 else 'differ'}-across-rows")
+            key = md_feas_key(ctx, f, rows[r], ep.actions[r])
             if key:
                 ctx.violation(key, f"mask-confined episode of the real env violates the problem statement (Lean Spec clause {f['why']})",
-                              {"inst": insts[r], "actions": ep.actions[r], "spec_clause": f["why"], "lean_line": lines[r]})
-            ctx.sample({"env": "mdcpdp", "inst": insts[r], "actions": ep.actions[r], "spec_feasible": f["feas"]})
+                              {"inst": rows[r], "actions": ep.actions[r], "spec_clause": f["why"], "row": r, "B": B, "lean_line": lines[r]})
+            ctx.sample({"env": "mdcpdp", "inst": rows[r], "actions": ep.actions[r], "spec_feasible": f["feas"]})
     md_generator_mismatch(ctx, envs)
+    md_generator_contract(ctx)
 
 
 def md_generator_mismatch(ctx, envs, episodes=6):
     """The bundled generator emits `capacity` of shape [B, 1]; the env takes `num_depot` from that shape."""
     for _ in range(ctx.budget(episodes, 40)):
         n, G = ctx.rng.choice([(4, 2), (4, 3), (6, 2), (6, 4)])
-        cfg = {"n": n, "K": G, "open": False, "dist": "L2"}
+        cfg = {"n": n, "K": G, "open": False, "dist": "L2", "start_mode": "order"}
         inst = md_instance(ctx.rng, cfg, "uniform")
-        env = envs.get(n, G, False, "L2")
+        env = envs.of(inst)
         torch.manual_seed(ctx.rng.randrange(2**31))
         gen = env.generator(batch_size=[1])
         cap = gen["capacity"]
@@ -415,7 +563,7 @@ def md_generator_mismatch(ctx, envs, episodes=6):
             continue  # generator emits one capacity per depot: nothing to demonstrate
         c = int(cap[0, 0])
         inst["caps"] = [c] * G  # the documented meaning: capacity of the vehicle (of every depot)
-        env_, ep = md_run(ctx, envs, [inst], cap_tensor=cap)
+        env_, ep, _rows = md_run(ctx, envs, [inst], cap_tensor=cap)
         line = md_line(inst, ep.actions[0], env_caps=[c], envK=cap.shape[-1])
         f = envcorr.compare_trace(ctx, MD, inst, ep.actions[0], ep.masks[0], ep.done[0], ctx.driver.ask(line),
                                   "C01 generator capacity shape")
@@ -427,47 +575,83 @@ def md_generator_mismatch(ctx, envs, episodes=6):
                           {"inst": inst, "capacity_shape": list(cap.shape), "actions": ep.actions[0], "lean_line": line})
 
 
+def md_generator_contract(ctx, draws=6):
+    """the documented contract of MDCPDPGenerator at non-default parameters (ranges that differ from the defaults, both depot
+    modes): shapes, coordinate box, capacity and lateness-weight ranges"""
+    from rl4co.envs.routing.mdcpdp.generator import MDCPDPGenerator
+
+    for k in range(ctx.budget(draws, 40)):
+        n, G = ctx.rng.choice([(4, 2), (6, 3), (10, 1), (20, 5)])
+        lo = ctx.rng.randint(1, 4)
+        hi = lo + ctx.rng.randint(0, 3)
+        wlo = ctx.rng.choice([0.0, 0.25, 0.5])
+        whi = wlo + ctx.rng.choice([0.0, 0.25, 0.5])
+        mode = ["single", "multiple"][k % 2]
+        params = dict(num_loc=n, num_depot=G, min_capacity=lo, max_capacity=hi, min_lateness_weight=wlo,
+                      max_lateness_weight=whi, depot_mode=mode)
+        torch.manual_seed(ctx.rng.randrange(2**31))
+        out = MDCPDPGenerator(**params)(batch_size=[5])
+        cap, lw, dep, locs = out["capacity"], out["lateness_weight"], out["depot"], out["locs"]
+        bad = []
+        if tuple(locs.shape) != (5, n, 2) or tuple(dep.shape) != (5, G, 2):
+            bad.append(f"shapes locs {tuple(locs.shape)} depot {tuple(dep.shape)}")
+        if float(locs.min()) < 0 or float(locs.max()) > 1 or float(dep.min()) < 0 or float(dep.max()) > 1:
+            bad.append("coordinates outside [min_loc, max_loc]")
+        if int(cap.min()) < lo or int(cap.max()) > hi:
+            bad.append(f"capacity {cap.flatten().tolist()} outside [{lo}, {hi}]")
+        if whi > wlo and (float(lw.min()) < wlo - 1e-6 or float(lw.max()) > whi + 1e-6):
+            bad.append(f"lateness_weight {lw.flatten().tolist()} outside [{wlo}, {whi}]")
+        if mode == "single" and not bool((dep == dep[:, :1, :]).all()):
+            bad.append("depot_mode='single' but the depots of an instance differ")
+        ctx.case(("mdcpdp-generator", repr(params)))
+        ctx.count(f"mdcpdp.generator.depot_mode={mode}")
+        if bad:
+            ctx.violation("mdcpdp:generator:instance-outside-documented-range",
+                          "MDCPDPGenerator returned an instance outside its documented contract: " + "; ".join(bad),
+                          {"generator_params": params, "capacity": cap.tolist(), "lateness_weight": lw.tolist()})
+
+
 def md_check_termination(ctx, episodes_quick=40, episodes_thorough=2000):
     envs = MdcpdpEnvs()
+    cfgs = MdCfg(ctx)
     total = ctx.budget(episodes_quick, episodes_thorough)
     k = 0
     while k < total:
-        cfg = md_cfg(ctx.rng, ctx.tier)
+        cfg = cfgs.next()
         B = ctx.rng.choice([1, 2, 3, 5])
         insts = [md_instance(ctx.rng, cfg, ctx.rng.choice(["random", "boundary"])) for _ in range(B)]
         pad = ctx.rng.choice([0, 0, 1, 3])
         try:
-            env, ep = md_run(ctx, envs, insts, pad=pad)
+            env, ep, rows = md_run(ctx, envs, insts, pad=pad)
         except RuntimeError as e:
             ctx.violation("mdcpdp:no-termination", f"real env: {e}", {"insts": insts})
             k += B
             continue
         k += B
-        lines, replies = md_ask(ctx, insts, ep)
+        lines, replies = md_ask(ctx, rows, ep)
         for r in range(B):
-            f = envcorr.compare_trace(ctx, MD, insts[r], ep.actions[r], ep.masks[r], ep.done[r], replies[r], "C02 stream")
+            f = envcorr.compare_trace(ctx, MD, rows[r], ep.actions[r], ep.masks[r], ep.done[r], replies[r], "C02 stream")
             d = ep.done[r]
-            ctx.case(("mdcpdp", repr(insts[r]), tuple(ep.actions[r])))
+            ctx.case(("mdcpdp", repr(rows[r]), tuple(ep.actions[r])))
             ctx.count(f"mdcpdp.n={cfg['n']}.K={cfg['K']}")
             if any(d[j] == 1 and d[j + 1] == 0 for j in range(len(d) - 1)):
                 ctx.violation("mdcpdp:done-unstable", "a finished row became unfinished again",
-                              {"inst": insts[r], "actions": ep.actions[r], "done": d})
+                              {"inst": rows[r], "actions": ep.actions[r], "done": d})
             fd = mc.first_done(d)
-            bound = cfg["n"] + 2 * cfg["K"] - 1
+            bound = cfg["n"] + 2 * cfg["K"] - 1 + (1 if rows[r]["start"] != 0 else 0)
             if fd is None:
                 ctx.violation("mdcpdp:not-finished", "row not finished at the end of the batch episode",
-                              {"inst": insts[r], "actions": ep.actions[r]})
+                              {"inst": rows[r], "actions": ep.actions[r]})
             elif fd > bound:
                 ctx.violation("mdcpdp:step-bound", f"row needed {fd} steps, bound is {bound}",
-                              {"inst": insts[r], "actions": ep.actions[r]})
-            if "bound" in f and int(f["bound"]) != bound:
-                ctx.disagreement("mdcpdp: bound differs", {"model": f["bound"], "harness": bound})
+                              {"inst": rows[r], "actions": ep.actions[r]})
             if fd is not None and fd < len(d) - 1:
                 ctx.count("mdcpdp.padded-rows")
+            ctx.sample({"env": "mdcpdp", "inst": rows[r], "actions": ep.actions[r], "first_done": fd, "bound": bound, "B": B})
         for (r, t) in ep.empty_mask_rows:
             ctx.violation("mdcpdp:dead-end", "a row is offered no action while the batch is still running",
-                          {"inst": insts[r], "actions": ep.actions[r], "step": t})
-        ctx.sample({"env": "mdcpdp", "cfg": cfg, "B": B, "steps": ep.steps})
+                          {"inst": rows[r], "actions": ep.actions[r], "step": t,
+                           "row_done": ep.done[r][t] if t < len(ep.done[r]) else None})
 
 
 def md_reward_ticks(env, td, acts, mode, insts):
@@ -490,14 +674,17 @@ def md_reward_key(f, real):
 
 def md_check_reward(ctx, episodes_quick=40, episodes_thorough=2000):
     envs = MdcpdpEnvs()
+    cfgs = MdCfg(ctx)
     total = ctx.budget(episodes_quick, episodes_thorough)
     k = 0
     while k < total:
-        cfg = md_cfg(ctx.rng, ctx.tier)
-        B = ctx.rng.choice([1, 1, 1, 2, 3])
+        cfg = cfgs.next()
+        B = ctx.rng.choice([1, 1, 2, 3, 4])
         insts = [md_instance(ctx.rng, cfg, ctx.rng.choice(["random", "boundary", "uniform"])) for _ in range(B)]
         pad = ctx.rng.choice([0, 0, 0, 1])
-        env, ep = md_run(ctx, envs, insts, pad=pad)
+        env, ep, rows = md_run(ctx, envs, insts, pad=pad)
+        insts = rows
+        ctx.count(f"mdcpdp.B={B}.lateness-weights-{'equal' if len({i['w4'] for i in insts}) == 1 else 'differ'}-across-rows")
         k += B
         if ep.empty_mask_rows:
             ctx.count("mdcpdp.dead-end-skipped")
@@ -536,23 +723,26 @@ def md_check_reward(ctx, episodes_quick=40, episodes_thorough=2000):
                                    "real_reward_ticks": real[r], "spec_objective_ticks": int(f["obj"]), "lean_line": lines[r][:2000]})
                 else:
                     ctx.count(f"mdcpdp.{mode}.reward-correct")
-        ctx.sample({"env": "mdcpdp", "inst": insts[0], "actions": ep.actions[0]})
+        ctx.sample({"env": "mdcpdp", "inst": insts[0], "actions": ep.actions[0],
+                    "rewards_ticks": {m: md_reward_ticks(env, ep.td, acts, m, insts)[0] for m in MODES}})
 
 
 def md_check_batch(ctx, groups_quick=12, groups_thorough=500):
     envs = MdcpdpEnvs()
+    cfgs = MdCfg(ctx)
     for g in range(ctx.budget(groups_quick, groups_thorough)):
-        cfg = md_cfg(ctx.rng, ctx.tier)
+        cfg = cfgs.next()
         B = ctx.rng.choice([2, 3, 5])
         pad = ctx.rng.choice([0, 0, 1, 2])
-        mode = ctx.rng.choice(MODES)
+        mode = MODES[g % 3]
         if g < 2:  # every run covers a padded close-mode batch (g = 0) and a padded open-mode batch (g = 1)
             cfg = dict(md_cfg(ctx.rng, ctx.tier, K=1), open=(g == 1))
             pad, mode = 1 + g, "minsum"
         insts = [md_instance(ctx.rng, cfg, ctx.rng.choice(["random", "boundary"])) for _ in range(B)]
         if ctx.rng.random() < 0.3:
             insts[ctx.rng.randrange(B)] = insts[0]
-        env, ep = md_run(ctx, envs, insts, pad=pad)
+        env, ep, rows = md_run(ctx, envs, insts, pad=pad)
+        insts = rows
         if ep.empty_mask_rows:
             continue
         rew_b = md_reward_ticks(env, ep.td, rl.actions_tensor(ep), mode, insts)
@@ -570,7 +760,7 @@ def md_check_batch(ctx, groups_quick=12, groups_thorough=500):
             d = ep.done[r]
             fin = d.index(1) if 1 in d else len(ep.actions[r])
             solo_actions = ep.actions[r][:fin]
-            env1, ep1 = md_run(ctx, envs, [insts[r]], forced=[solo_actions])
+            env1, ep1, _ = md_run(ctx, envs, [insts[r]], forced=[solo_actions], pin_start=[insts[r]["start"]])
             ctx.case(("mdcpdp", repr(insts[r]), tuple(ep.actions[r]), B, r))
             ctx.count(f"mdcpdp.B={B}.row={'0' if r == 0 else '>0'}")
             if ep1.actions[0] != solo_actions:
@@ -592,7 +782,8 @@ def md_check_batch(ctx, groups_quick=12, groups_thorough=500):
                 ctx.violation(key, "reward differs between the solo run and the batched run of the same instance with the same actions",
                               {"inst": insts[r], "row": r, "B": B, "mode": mode, "batched_actions": ep.actions[r],
                                "solo_reward_ticks": rew_s, "batched_reward_ticks": rew_b[r]})
-        ctx.sample({"env": "mdcpdp", "cfg": cfg, "B": B, "pad": pad, "mode": mode})
+        ctx.sample({"env": "mdcpdp", "cfg": cfg, "B": B, "pad": pad, "mode": mode, "row0": insts[0], "row0_actions": ep.actions[0],
+                    "row0_batched_reward_ticks": rew_b[0]})
 
 
 def md_candidates(inst):
@@ -615,70 +806,86 @@ def md_candidates(inst):
                 yield sol
 
 
-def md_check_completeness(ctx, insts_quick=8, insts_thorough=60):
-    envs = MdcpdpEnvs()
-    fixed = [((2, 1), None), ((4, 1), None), ((4, 2), [2, 2]), ((4, 2), [1, 2]), ((2, 3), [1, 1, 1]), ((4, 2), [2, 1])]
-    for g in range(ctx.budget(insts_quick, insts_thorough)):
-        if g < len(fixed):  # every run covers: single depot, equal capacities, larger / smaller capacity than depot 0, 3 depots
-            (n, K), caps = fixed[g]
+class MdCompleteness:
+    """C05 plug-in: tiny instances enumerated exhaustively and driven next to companion rows with other capacities,
+    lateness weights (and, for start_mode='random', other start depots)."""
+    name = "mdcpdp"
+    obj_fields = ["objopen"]
+    FIXED = [((2, 1), None, "random"), ((4, 1), [1], "clustered"), ((4, 2), [2, 2], "random"), ((4, 2), [1, 2], "clustered"),
+             ((2, 3), [1, 1, 1], "random"), ((4, 2), [2, 1], "clustered"), ((4, 2), [1, 1], "clustered"), ((4, 1), [2], "random")]
+
+    def __init__(self, ctx):
+        self.envs = MdcpdpEnvs()
+        self.cfgs = MdCfg(ctx)
+
+    def instances(self, ctx, g):
+        if g < len(self.FIXED):  # every run: single depot, equal capacities, larger / smaller capacity than depot 0, 3 depots,
+            (n, K), caps, kind = self.FIXED[g]  # binding capacities on clustered geometry
         else:
-            (n, K), caps = ctx.rng.choice([(2, 1), (2, 2), (4, 1), (4, 2), (2, 3)] + ([(4, 3)] if ctx.tier == "thorough" else [])), None
-        cfg = {"n": n, "K": K, "open": False, "dist": "L2"}
-        inst = md_instance(ctx.rng, cfg, ctx.rng.choice(["boundary", "uniform", "random"]))
+            (n, K), caps, kind = ctx.rng.choice([(2, 1), (2, 2), (4, 1), (4, 2), (2, 3)] + ([(4, 3)] if ctx.tier == "thorough" else [])), None, \
+                ctx.rng.choice(["boundary", "uniform", "random", "clustered"])
+        cfg = self.cfgs.next(n=n, K=K)
+        inst = md_instance(ctx.rng, cfg, kind)
         if caps is not None:
             inst["caps"] = caps
-        cands = list(md_candidates(inst))
-        replies = mc.ask_chunked(ctx, [md_line(inst, c) for c in cands])
-        feas = [(c, parse_fields(rep)) for c, rep in zip(cands, replies)]
-        feas = [(c, f) for c, f in feas if f.get("feas") == "1"]
-        ctx.count("mdcpdp.candidates", len(cands))
-        ctx.count("mdcpdp.feasible", len(feas))
+        h = n // 2
+        lo = dict(md_instance(ctx.rng, cfg, "random"), caps=[1] * K, w4=0)
+        hi = dict(md_instance(ctx.rng, cfg, "random"), caps=[h + 1] * K, w4=4)
+        comps = [lo, hi] if ctx.rng.random() < 0.5 else [hi, lo]
         ctx.count(f"mdcpdp.n={n}.K={K}")
-        env = envs.get(n, K, False, "L2")
-        for c, f in feas:
-            # each candidate is driven on its own (batch size 1)
-            td = env.reset(md_to_td([inst]))
-            blocked = None
-            for t, a in enumerate(c):
-                if not bool(td["action_mask"][0, a]):
-                    blocked = (t, rl.mask_str(td["action_mask"][0]))
-                    break
-                td.set("action", torch.tensor([a], dtype=torch.long))
-                td = env.step(td)["next"]
-            ctx.case(("mdcpdp", repr(inst), tuple(c)))
-            if blocked is not None:
-                t, m = blocked
-                a = c[t]
-                if f.get("adm") == "1":
-                    ctx.disagreement("mdcpdp: model admits, real mask blocks", {"inst": inst, "solution": c, "step": t})
-                # the vehicle that is out at step t and what it carries
-                opened = [x for k, x in enumerate(c[:t]) if x < K and x not in c[:k]]
-                veh = opened[-1] if opened else None
-                last_open = max(k for k, x in enumerate(c[:t]) if x == veh and x not in c[:k]) if veh is not None else 0
-                onboard = sum(1 for x in c[last_open:t] if K <= x < K + n // 2) - sum(1 for x in c[last_open:t] if x >= K + n // 2)
-                if a < K and a != 0 and a == veh and m[0] == "1":
-                    # the vehicle returns to its OWN depot; the mask offers node 0 instead
-                    key = "mdcpdp:current-depot-stuck:return-to-own-depot-not-offered"
-                elif K <= a < K + n // 2 and veh not in (None, 0) and inst["caps"][0] <= onboard < inst["caps"][veh]:
-                    # a pickup that fits the vehicle's own capacity but not depot 0's
-                    key = "mdcpdp:current-depot-stuck:capacity-of-depot-0-applied"
-                else:
-                    key = "mdcpdp:mask-hides-feasible"
-                ctx.violation(key, "a feasible solution (Lean Spec) is not offered by the real mask",
-                              {"inst": inst, "solution": c, "blocked_at_step": t, "mask": m})
-            else:
-                if f.get("adm") != "1":
-                    ctx.disagreement("mdcpdp: real mask admits a feasible solution, model does not", {"inst": inst, "solution": c})
-                if not bool(td["done"].reshape(-1)[0]):
-                    ctx.violation("mdcpdp:feasible-not-done", "feasible complete solution not recognised as finished",
-                                  {"inst": inst, "solution": c})
-        ctx.sample({"env": "mdcpdp", "inst": inst, "n_candidates": len(cands), "n_feasible": len(feas),
-                    "example": feas[0][0] if feas else None})
+        ctx.count(f"mdcpdp.kind={kind}")
+        return inst, comps
+
+    def candidates(self, inst):
+        return md_candidates(inst)
+
+    def env_for(self, inst):
+        return self.envs.of(inst)
+
+    def to_td(self, insts):
+        return md_to_td(insts)
+
+    def after_reset(self, td, r):
+        return {"start": int(td["current_depot"][r])}
+
+    def line(self, inst, actions):
+        return md_line(inst, actions)
+
+    def hide_key(self, inst, c, t, m, f):
+        n, K, a = inst["n"], inst["K"], c[t]
+        # the vehicle that is out at step t and what it carries
+        opened = [x for k, x in enumerate(c[:t]) if x < K and x not in c[:k]]
+        veh = opened[-1] if opened else None
+        last_open = max(k for k, x in enumerate(c[:t]) if x == veh and x not in c[:k]) if veh is not None else 0
+        onboard = sum(1 for x in c[last_open:t] if K <= x < K + n // 2) - sum(1 for x in c[last_open:t] if x >= K + n // 2)
+        st = inst.get("start", 0)
+        if st != 0 and a == 0 and veh == 0 and m[st] == "1" and m[0] == "0":
+            # start_mode='random' drew depot `st`: the return of vehicle 0 to node 0 is replaced by node `st`
+            return "mdcpdp:start-mode-random:return-to-depot-0-not-offered"
+        if st != 0 and K <= a < K + n // 2 and veh is not None and inst["caps"][st] <= onboard < inst["caps"][veh]:
+            # ... and depot `st`'s capacity is applied to the vehicle that is out
+            return "mdcpdp:start-mode-random:capacity-of-start-depot-applied"
+        if st == 0 and a < K and a != 0 and a == veh and m[0] == "1":
+            # the vehicle returns to its OWN depot; the mask offers node 0 instead
+            return "mdcpdp:current-depot-stuck:return-to-own-depot-not-offered"
+        if st == 0 and K <= a < K + n // 2 and veh not in (None, 0) and inst["caps"][0] <= onboard < inst["caps"][veh]:
+            # a pickup that fits the vehicle's own capacity but not depot 0's
+            return "mdcpdp:current-depot-stuck:capacity-of-depot-0-applied"
+        return "mdcpdp:mask-hides-feasible"
+
+    def known_reachable(self, inst, c, f):
+        # reachable although infeasible only because of the clauses the known `current_depot` defect breaks
+        return f.get("vnohome") == "0" or f.get("vcap0") == "0"
 
 
-MD_NOTE = ("MDCPDPEnv (start_mode='order') modelled per batch row over integer ticks (Rl4co/Env/Mdcpdp.lean); every row of a "
+def md_check_completeness(ctx, insts_quick=10, insts_thorough=60):
+    mc.check_completeness_batched(ctx, MdCompleteness(ctx), insts_quick, insts_thorough)
+
+
+MD_NOTE = ("MDCPDPEnv modelled per batch row over integer ticks (Rl4co/Env/Mdcpdp.lean; start_mode='random' through the initial "
+           "`current_depot` read back from the reset state — the theorems assume start_mode='order'); every row of a "
            "real batch is compared with the per-row model; coordinates→distance arithmetic (L1/L2) and float32 rounding are outside the model "
-           "(integral point sets make them exact); start_mode='random' and reward_mode='lateness_square' are not modelled")
+           "(integral point sets make them exact); reward_mode='lateness_square' is not modelled (the real call raises)")
 
 
 def _mods(path, mod, fallback):
@@ -690,7 +897,8 @@ register(Unit("C01", "mdcpdp", mc.chunked(md_check_feasibility), drivers=["drv_m
               theorems=_thms("Rl4co/Props/C01/Mdcpdp.lean", [
                   Theorem("Rl4co.Mdcpdp.core_of_run", "partial", "every finished mask-confined episode (solo row, well-formed instance): customers exactly once, delivery after its pickup, load within [0, capacity of depot 0] after every prefix, depots entered empty"),
                   Theorem("Rl4co.Mdcpdp.feasible_of_run_counterexample", "proved", "¬ feasible_of_run_statement: the capacity of depot 0 is applied to the vehicle of depot 1"),
-                  Theorem("Rl4co.Mdcpdp.feasible_of_run_uniform_counterexample", "proved", "even with equal capacities: a vehicle started at depot 1 ends its tour at node 0")]),
+                  Theorem("Rl4co.Mdcpdp.feasible_of_run_uniform_counterexample", "proved", "even with equal capacities: a vehicle started at depot 1 ends its tour at node 0"),
+                  Theorem("Rl4co.Mdcpdp.feasible_of_run_random_start_counterexample", "proved", "start_mode='random': first action forced to node 0 although current_depot = r; a finished episode that the problem statement rejects")]),
               assumptions=[MD_NOTE] + ([] if _has("Rl4co/Props/C01/Mdcpdp.lean") else [NO_THM])))
 register(Unit("C02", "mdcpdp", mc.chunked(md_check_termination), drivers=["drv_mdcpdp"],
               lean_modules=_mods("Rl4co/Props/C02/Mdcpdp.lean", "Rl4co.Props.C02.Mdcpdp", "Rl4co.Spec.Mdcpdp"),
